@@ -130,7 +130,7 @@ func runJob(w *World, j *Job, solverKind string) (res *JobResult) {
 		}
 	}()
 	ts := NewTermStore()
-	sv, err := NewSolver(ts, solverKind, 60*time.Second)
+	sv, err := NewSolver(ts, solverKind, 30*time.Second)
 	if err != nil {
 		res.Inconclusive = append(res.Inconclusive, "solver start: "+err.Error())
 		return
@@ -220,7 +220,7 @@ func runJob(w *World, j *Job, solverKind string) (res *JobResult) {
 			}
 		default:
 			res.Inconclusive = append(res.Inconclusive, end.kind+": "+end.msg)
-			if len(res.Inconclusive) > 20 {
+			if len(res.Inconclusive) > 20 || end.kind == "giveup" {
 				e.work = nil
 			}
 		}
